@@ -600,13 +600,8 @@ func c09ClockSkew(w *core.WorkerCtx) {
 				}
 			}
 		}
-		if f := os.Getenv("VERIF_DEBUG_SKEW"); f != "" {
-			fh, _ := os.OpenFile(f, os.O_APPEND|os.O_CREATE|os.O_WRONLY, 0o644)
-			fmt.Fprintf(fh, "skew %v deliver err=%v live=%d leaves=%d\n", skew, derr, len(n.Prev.Live), len(n.Prev.Leaves))
-			fh.Close()
-		}
+		w.R.Count("c09_clock_skew_rounds_judged", 1)
 		world.EvalFor("C09", 1)
 		world.NontrivFor("C09", fmt.Sprintf("clock-skew/%v/admitted=%v", skew, derr == nil))
 	}
-	w.R.Count("c09_clock_skew_scenarios", 1)
 }
